@@ -270,6 +270,10 @@ def build_hmc(arg):
     # Non-centred: theta = CumSumExp(u) sits between u and the GMRF's log(theta): keep it.
     if arg.coalescent in COALESCENT_PIECEWISE and not arg.coalescent_non_centered:
         jacobians_list.remove("coalescent.theta")
+    # the rescaled rates are a deterministic function of rates.unscaled (which carries the
+    # prior) used by the likelihood only: no density is placed on them, no Jacobian
+    if arg.clock == "horseshoe":
+        jacobians_list.remove("branchmodel.rates")
 
     joint_jacobian = {
         "id": "joint.jacobian",
